@@ -14,7 +14,7 @@ LEVEL = 'exploration'
 NSIMS = 2000
 RULE = ('Engine A: lattice of experiment frames with cost columns: 4 shapes x n_pre in {4,6,10} x n_test in {1,3} x cooldown '
         'in {0,2} x use_cooldown x scenario in {fixed (pre-period and control test-period cost exactly 0), variable (costs O(10), '
-        'strong cost effect), control-cost-only-in-cooldown, pre-period-cost-only} x tails x level in {0.5,0.8,0.9,0.95} x '
+        'strong cost effect), control-cost-only-in-cooldown, pre-period-cost (both groups), treatment-pre-cost-only, control-test-cost-only} x tails x level in {0.5,0.8,0.9,0.95} x '
         'threshold in {0, 1.5} x random_state in {0,7} (quick: sub-grid). Oracle: fixed: estimate/lower/upper = response-effect '
         'figures / incremental cost (closed form), incremental_response_{lower,upper} = bounds x cost; variable: two calls '
         'with the same integer random_state give identical reports; both: lower <= estimate <= upper (scope S1/S2), scenario '
@@ -50,6 +50,15 @@ def cost_series(scen, x, npre, ntest, ncool, seed):
         cc[:npre] = 8.0 + 4 * np.array(frames.lcg_noise(seed + 79, npre, 0, 3), float)
         ct[:npre] = 2 * cc[:npre] + 4 * np.array(frames.lcg_noise(seed + 83, npre, 0, 2), float)
         ct[npre:npre + ntest] = 400.0
+    elif scen == 'treatment-pre-cost-only':        # only the treatment group ever spent: non-zero pre-period cost => variable
+        cc = np.zeros(n)
+        ct = 16.0 + 4 * np.array(frames.lcg_noise(seed + 89, n, 0, 3), float)
+        ct[npre:npre + ntest] += 400.0
+    elif scen == 'control-test-cost-only':         # control spends only in the test period => variable
+        cc = np.zeros(n)
+        ct = np.zeros(n)
+        cc[npre:npre + ntest] = 8.0
+        ct[npre:npre + ntest] = 400.0
     else:
         raise KeyError(scen)
     return cc, ct
@@ -59,7 +68,7 @@ def cases(tier, seed):
     out = []
     thorough = tier == 'thorough'
     for sh, npre, ntest, ncool in itertools.product(frames.SHAPES[:4] if not thorough else frames.SHAPES, (4, 6, 10), (1, 3), (0, 2)):
-        for scen in ('fixed', 'variable', 'control-cost-in-cooldown', 'pre-period-cost'):
+        for scen in ('fixed', 'variable', 'control-cost-in-cooldown', 'pre-period-cost', 'treatment-pre-cost-only', 'control-test-cost-only'):
             for use_cd in ((True, False) if ncool else (False,)):
                 settings = [(t, l, th, rs) for t in (1, 2) for l in (0.5, 0.8, 0.9, 0.95) for th in (0.0, 1.5) for rs in (0, 7)]
                 if not thorough:
